@@ -21,7 +21,7 @@
 # endorsement should be inferred.
 import dataclasses
 import itertools
-from typing import Iterable, List, Mapping, MutableMapping, Optional
+from typing import Iterable, List, Mapping, MutableMapping, Optional, Tuple
 
 import gtirb
 
@@ -35,6 +35,15 @@ from .utils import align_address
 
 class PaddingError(Exception):
     """Indicates an error inserting padding to reach a desired alignment."""
+
+
+def _block_order_key(block: gtirb.ByteBlock) -> Tuple[int, int, bool]:
+    """
+    A total order for the blocks of an interval. Ordering by offset alone
+    leaves blocks that share an offset in set iteration order, which differs
+    from run to run.
+    """
+    return (block.offset, block.size, isinstance(block, gtirb.DataBlock))
 
 
 @dataclasses.dataclass
@@ -84,7 +93,7 @@ def split_byte_interval(
 
     # Group overlapping blocks so they can be processed as a unit.
     groups: List[BlockGroup] = []
-    for block in sorted(interval.blocks, key=lambda b: b.offset):
+    for block in sorted(interval.blocks, key=_block_order_key):
         block_end = block.offset + block.size
         if groups == [] or groups[-1].end <= block.offset:
             groups.append(BlockGroup(block.offset, block_end, [block]))
@@ -217,7 +226,7 @@ def join_byte_intervals(
     if destination.address is not None:
         address = destination.address
     address += destination.size
-    last_block = max(destination.blocks, key=lambda b: b.offset, default=None)
+    last_block = max(destination.blocks, key=_block_order_key, default=None)
     last_module = last_block.module if last_block is not None else None
 
     def insert_padding(size):
@@ -284,7 +293,7 @@ def join_byte_intervals(
             module_alignment = {}
         node = min(
             (b for b in interval.blocks if b in module_alignment),
-            key=lambda b: b.offset,
+            key=_block_order_key,
             default=interval,
         )
         if node == interval:
@@ -303,7 +312,7 @@ def join_byte_intervals(
         deltas[interval] = len(destination.contents)
         symexprs[interval] = dict(interval.symbolic_expressions)
         last_block = max(
-            interval.blocks, default=last_block, key=lambda b: b.offset
+            interval.blocks, default=last_block, key=_block_order_key
         )
         if last_block is not None and last_block.module is not None:
             last_module = last_block.module
